@@ -125,6 +125,26 @@ def is_numeric(v):
     return isinstance(v, (int, float)) and not isinstance(v, bool) or isinstance(v, bool)
 
 
+def _ground_int_facts(it, extra):
+    """is_int(int2val(t)) and val2int(int2val(t)) == t for every int2val(t) that occurs in the path condition so far
+    (quantifier-free: keeps counter-models available)"""
+    seen = it.ctx.__dict__.setdefault("_int_seen", set())
+    todo = list(it.ctx.pc) + list(extra)
+    visited = set()
+    while todo:
+        t = todo.pop()
+        if t.get_id() in visited:
+            continue
+        visited.add(t.get_id())
+        if z3.is_app(t):
+            if t.decl().name() == "int2val" and t.get_id() not in seen:
+                seen.add(t.get_id())
+                it.ctx.assume(z3.And(smt.is_int(t), smt.val2int(t) == t.arg(0)))
+            todo.extend(t.children())
+        elif z3.is_quantifier(t):
+            todo.append(t.body())
+
+
 def binop(it, op, a, b, inplace=False):
     k = type(op)
     # concrete fast path
@@ -179,7 +199,15 @@ def binop(it, op, a, b, inplace=False):
         if name is None:
             raise Unsupported("binop on Val")
         f = z3.Function(name, smt.Val, smt.Val, smt.Val)
-        return ValSV(f(it.to_val(a), it.to_val(b)))
+        ta, tb = it.to_val(a), it.to_val(b)
+        res = f(ta, tb)
+        if k in (ast.Add, ast.Sub, ast.Mult):
+            # on Python ints the abstract operation IS integer arithmetic: ground instances for these operands
+            iop = {ast.Add: lambda x, y: x + y, ast.Sub: lambda x, y: x - y, ast.Mult: lambda x, y: x * y}[k]
+            _ground_int_facts(it, [ta, tb])
+            it.ctx.assume(z3.Implies(z3.And(smt.is_int(ta), smt.is_int(tb)),
+                                     res == smt.int2val(iop(smt.val2int(ta), smt.val2int(tb)))))
+        return ValSV(res)
     if isinstance(a, float) and a == int(a):
         a = int(a)  # A-time: an integral float tick count is that many ticks
     if isinstance(b, float) and b == int(b):
@@ -354,6 +382,9 @@ def compare(it, op, a, b):
     if (isinstance(a, SV) and a.kind == "val") or (isinstance(b, SV) and b.kind == "val"):
         f = z3.Function("val_lt", smt.Val, smt.Val, z3.BoolSort())
         ta, tb = it.to_val(a), it.to_val(b)
+        # A-order: the ordering operators of user values are mutually consistent (a < b implies a <= b)
+        g_ = z3.Function("val_le", smt.Val, smt.Val, z3.BoolSort())
+        it.ctx.assume(z3.And(z3.Implies(f(ta, tb), g_(ta, tb)), z3.Implies(f(tb, ta), g_(tb, ta))))
         if k is ast.Lt:
             return BoolSV(f(ta, tb))
         if k is ast.Gt:
@@ -486,6 +517,8 @@ def getitem(it, base, idx):
                     return base[j]
             raise PyExc(it.make_exc("IndexError", "tuple index out of range"))
     if isinstance(base, DictObj):
+        if base.symbolic:
+            raise Unsupported("lookup in a dict known only by its insertion history")
         k = hashable(it, idx)
         if k not in base.d:
             raise PyExc(it.make_exc("KeyError", repr(k)))
@@ -545,7 +578,18 @@ def setitem(it, base, idx, val):
             raise PyExc(it.make_exc("IndexError", "list assignment index out of range"))
         raise Unsupported("setitem on symbolic list")
     if isinstance(base, DictObj):
+        if not base.symbolic and isinstance(idx, SV):
+            # a symbolic key: from here on the dict is known by its insertion history only
+            if base.hist is None:
+                raise Unsupported("symbolic key into a dict with an unknown history")
+            base.log = it.seq_term(ListObj([(k, x) for k, x in base.hist]))
+            base.symbolic = True
+        if base.symbolic:
+            base.log = z3.Concat(base.log, z3.Unit(it.to_val((idx, val))))
+            return
         base.d[hashable(it, idx)] = val
+        if base.hist is not None:
+            base.hist.append((idx, val))
         return
     if isinstance(base, Obj):
         m = it.class_lookup(base.cls, "__setitem__")
@@ -560,6 +604,9 @@ def setitem(it, base, idx, val):
 
 def delitem(it, base, idx):
     if isinstance(base, DictObj):
+        if base.symbolic:
+            raise Unsupported("del on a dict known only by its insertion history")
+        base.hist = None
         k = hashable(it, idx)
         if k not in base.d:
             raise PyExc(it.make_exc("KeyError", repr(k)))
@@ -694,6 +741,10 @@ def list_method(it, lst: ListObj, name):
 
 
 def dict_method(it, d: DictObj, name):
+    if d.symbolic:
+        raise Unsupported(f"dict.{name} on a dict known only by its insertion history")
+    if name in ("pop", "setdefault", "clear", "update", "popitem"):
+        d.hist = None
     def get(it_, args, kw):
         k = hashable(it, args[0])
         return d.d.get(k, args[1] if len(args) > 1 else None)
@@ -725,7 +776,17 @@ def dict_method(it, d: DictObj, name):
 
 
 def set_method(it, s: SetObj, name):
+    if s.symbolic and name != "add":
+        raise Unsupported(f"set.{name} on a set known only by its insertion history")
+    if name not in ("add", "copy"):
+        s.hist = None
+
     def add(it_, args, kw):
+        if s.symbolic:
+            s.log = z3.Concat(s.log, z3.Unit(it.to_val(args[0])))
+            return
+        if s.hist is not None:
+            s.hist.append(args[0])
         r = contains(it, s, args[0])
         if not (r if isinstance(r, bool) else it.ctx.branch(r, "set.add: present")):
             s.s.append(args[0])
@@ -1137,9 +1198,53 @@ def install(it):
     E["collections.deque"] = Native("deque", _deque)
     E["collections.OrderedDict"] = Native("OrderedDict", lambda it_, a, k: _dict(it_, a, k))
     E["weakref.WeakKeyDictionary"] = Native("WeakKeyDictionary", lambda it_, a, k: _dict(it_, a, k))
+    E["dataclasses.dataclass"] = Native("dataclass", _dataclass)
     # sys
     E["sys.maxsize"] = 2**63 - 1
     E["math.inf"] = float("inf")
+
+
+def _dataclass(it, args, kw):
+    """@dataclass / @dataclass(...): synthesise __init__ (and field-wise __eq__) from the annotated class body"""
+    if not (args and isinstance(args[0], ClassRef)):
+        return Native("dataclass(...)", lambda it_, a, k: _dataclass(it_, a, {}))
+    cls = args[0]
+    names, defaults = [], {}
+    for st in cls.node.body:
+        if isinstance(st, ast.AnnAssign) and isinstance(st.target, ast.Name):
+            names.append(st.target.id)
+            if st.value is not None:
+                defaults[st.target.id] = cls.attrs.get(st.target.id)
+
+    def init(it_, a, k):
+        o = a[0]
+        vals = dict(zip(names, a[1:]))
+        if len(a) - 1 > len(names):
+            raise PyExc(it.make_exc("TypeError", f"{cls.name}() takes {len(names)} positional arguments"))
+        for kk, vv in k.items():
+            if kk not in names or kk in vals:
+                raise PyExc(it.make_exc("TypeError", f"{cls.name}() got an unexpected or repeated argument {kk}"))
+            vals[kk] = vv
+        for n in names:
+            if n not in vals:
+                if n not in defaults:
+                    raise PyExc(it.make_exc("TypeError", f"{cls.name}() missing argument {n}"))
+                vals[n] = defaults[n]
+            o.fields[n] = vals[n]
+        return None
+
+    def eq(it_, a, k):
+        x, y = a[0], a[1]
+        if not (isinstance(y, Obj) and y.cls is x.cls):
+            return False
+        r = True
+        for n in names:
+            r = mk_and(r, _eq(it, x.fields.get(n), y.fields.get(n)))
+        return r if isinstance(r, bool) else BoolSV(r)
+    cls.attrs["__init__"] = Native(f"{cls.name}.__init__", init)
+    if "__eq__" not in cls.attrs:
+        cls.attrs["__eq__"] = Native(f"{cls.name}.__eq__", eq)
+    return cls
 
 
 def _ctor(it, name, args, kw):
